@@ -46,6 +46,13 @@ def supplied_coords(draw, spec, box, mode=None, nres=None, skip=()):
         ix, iy, iz = k % per_axis, (k // per_axis) % per_axis, k // (per_axis * per_axis)
         centres[key] = (0.7 + 0.9 * ix, 0.7 + 0.9 * iy, 0.7 + 0.9 * iz)
         k += 1
+    if mode != "mc" and draw(st.integers(0, 3)) == 0:
+        # one supplied residue of two or more atoms straddles the lower x face: its first atom lies just outside
+        # the box (negative coordinate), its centre inside
+        multi = [key for key in stream[:nres] if sum(1 for x in atoms if (x[3], x[4]) == key) >= 2]
+        if multi:
+            key = draw(st.sampled_from(multi))
+            centres[key] = (-0.05, centres[key][1], centres[key][2])
     if mode == "mc":
         for key in stream[:nres]:
             a = [x for x in atoms if (x[3], x[4]) == key][0]
@@ -65,6 +72,17 @@ def supplied_coords(draw, spec, box, mode=None, nres=None, skip=()):
 
 @st.composite
 def _strategy(draw):
+    if draw(st.integers(0, 59)) == 0:
+        # more than 5000 supplied one-bead molecules and one to three chains to build (C05's large flavour)
+        from . import c05
+        spec = draw(c05._large())
+        spec["opts"].pop("max_force", None)
+        if draw(st.booleans()):
+            # the molecule to build is a single bead and comes last
+            spec["moltypes"][1]["residues"] = spec["moltypes"][1]["residues"][:1]
+            spec["moltypes"][1]["res_edges"] = []
+            spec["molecules"][1][1] = 1
+        return spec
     # one case in four: longer chains in which supplied residues and residues to build (-res) alternate,
     # together with rejected steps
     mixed = draw(st.integers(0, 3)) == 0
@@ -176,6 +194,10 @@ def check_gro_listing(spec, res, clause="gro"):
 
 def check(spec, ctx):
     from polyply.src.random_walk import RandomWalk
+    if spec.get("fill"):
+        from . import c05
+        spec = c05._fill(spec)
+        ctx.label("more_than_5000_supplied")
     pattern = list(spec.get("fail_pattern", []))
     orig_update = RandomWalk.update_positions
     fails = [0]
@@ -189,7 +211,7 @@ def check(spec, ctx):
     if pattern:
         RandomWalk.update_positions = scripted
     try:
-        res = gc.run_gen_coords(spec, ctx)
+        res = gc.run_gen_coords(spec, ctx, timeout=60 if spec.get("fill") else 15)
     finally:
         RandomWalk.update_positions = orig_update
     if fails[0]:
